@@ -602,6 +602,30 @@ def stepF (cfg : Cfg) (dr : String → String) (s : State V) (op : Op V) : TurnR
   let f := flush r.st
   ⟨f.1, silence r.st.closing op r.obs, r.evs ++ f.2.map (fun e => Ev.closed e.1), f.2⟩
 
+/-! ### a connection whose first message is handed over before the front-end has registered it
+
+`SessionsImpl.OnSessionCreate` posts `AddSession` to the front-end's scheduler, `SessionsImpl.ProcessMessage`
+posts the message; both are called on the connection's READER goroutine.  While the front-end is busy (inside a
+task of its own) both wait in its queue, in that order: the first message of a fresh connection is handed over
+before the connection has an id.  The front-end then runs the two tasks one after the other: `AddSession`
+assigns the id, and the posted message task reads the id of its session WHEN IT RUNS
+(`cmsg.SessionId = session.GetId()` inside the closure), so the message is a message of exactly the
+connection registered just before. -/
+
+/-- the front-end's queue holds [`AddSession` of a new connection of `f`, its first message] and, with
+`closeAfter`, [`RemoveSession`] behind them (the client hung up right after its first message: the reader saw
+EOF, `Close()` set the closed flag and posted the removal before the front-end got to any of it): result of both
+turns (events of both, the removals at the end of the second) and the connection that was registered -/
+def stepOpenReq (cfg : Cfg) (dr : String → String) (s : State V) (f : String) (svcType : String) (ntf : Bool)
+    (script : List (SOp V)) (closeAfter : Bool := false) : TurnR V × Option Conn :=
+  let r1 := stepF cfg dr s (.openC f)
+  match r1.obs with
+  | .opened n =>
+    let s1 := if closeAfter then markClosing r1.st (f, n) else r1.st
+    let r2 := stepF cfg dr s1 (.req (f, n) svcType ntf script)
+    (⟨r2.st, r2.obs, r1.evs ++ r2.evs, r1.gone ++ r2.gone⟩, some (f, n))
+  | _ => (r1, none)
+
 /-- a whole history: final state and the events in order -/
 def nextView (vw : View) : Op V → View
   | .topo _ sts => some sts
